@@ -48,7 +48,10 @@ NewAux(origin) == [origin |-> origin,   \* 0: created by a constructor; i: resto
                    key |-> <<>>,        \* the key it returned
                    arg1 |-> <<>>,       \* argument of the first finish()
                    res1 |-> NoOutcome,  \* outcome of the first finish()
-                   entropy |-> 0]       \* calls that consumed entropy
+                   entropy |-> 0,       \* calls that consumed entropy
+                   lastc |-> "none"]    \* class of the outcome of the last call on this instance
+
+OutcomeClass(o) == IF o.t = "err" THEN o.v ELSE o.t
 
 Init == /\ st = <<>> /\ aux = <<>> /\ wire = {} /\ disk = {} /\ nrest = 0
 
@@ -62,7 +65,8 @@ Start(i, x) ==
   LET o == StartOutcome(st[i], x) IN
   /\ st' = [st EXCEPT ![i] = StartNext(@, x, o)]
   /\ aux' = [aux EXCEPT ![i].nmsg = @ + (IF IsMsg(o) THEN 1 ELSE 0),
-                        ![i].entropy = @ + (IF IsMsg(o) THEN 1 ELSE 0)]
+                        ![i].entropy = @ + (IF IsMsg(o) THEN 1 ELSE 0),
+                        ![i].lastc = OutcomeClass(o)]
   /\ wire' = IF IsMsg(o) THEN wire \cup {o.v} ELSE wire
   /\ UNCHANGED <<disk, nrest>>
 
@@ -75,14 +79,35 @@ Finish(i, m) ==
                           ![i].inb = IF IsKey(o) THEN m ELSE @,
                           ![i].key = IF IsKey(o) THEN o.v ELSE @,
                           ![i].arg1 = IF aux[i].nfin = 0 THEN m ELSE @,
-                          ![i].res1 = IF aux[i].nfin = 0 THEN o ELSE @]
+                          ![i].res1 = IF aux[i].nfin = 0 THEN o ELSE @,
+                          ![i].lastc = OutcomeClass(o)]
     /\ UNCHANGED <<wire, disk, nrest>>
 
 Serialize(i) ==
   LET o == SerializeOutcome(st[i]) IN
   /\ o.t = "blob"
   /\ disk' = disk \cup {[cls |-> st[i].cls, ps |-> st[i].ps, blob |-> o.v, by |-> i]}
-  /\ UNCHANGED <<st, aux, wire, nrest>>
+  /\ aux' = [aux EXCEPT ![i].lastc = "blob"]
+  /\ UNCHANGED <<st, wire, nrest>>
+
+(* serialize() before start() raises and changes nothing                      *)
+SerializeTooEarly(i) ==
+  /\ SerializeOutcome(st[i]) = Err("SerializedTooEarly")
+  /\ aux' = [aux EXCEPT ![i].lastc = "SerializedTooEarly"]
+  /\ UNCHANGED <<st, wire, disk, nrest>>
+
+(* crash and revive as one step: serialize() immediately followed by          *)
+(* from_serialized() under the same class and parameters                      *)
+PersistAndRevive(i) ==
+  LET o == SerializeOutcome(st[i]) IN
+  /\ o.t = "blob"
+  /\ LET r == RestoreOutcome(st[i].cls, st[i].ps, o.v) IN
+       /\ r.t = "inst"
+       /\ st' = Append(st, r.v)
+       /\ aux' = Append([aux EXCEPT ![i].lastc = "blob"], [NewAux(i) EXCEPT !.lastc = "inst"])
+  /\ disk' = disk \cup {[cls |-> st[i].cls, ps |-> st[i].ps, blob |-> o.v, by |-> i]}
+  /\ nrest' = nrest + 1
+  /\ UNCHANGED wire
 
 Restore(cls, ps, d) ==
   LET o == RestoreOutcome(cls, ps, d.blob) IN
@@ -90,7 +115,7 @@ Restore(cls, ps, d) ==
   /\ Len(st) < MaxInst
   /\ o.t = "inst"
   /\ st' = Append(st, o.v)
-  /\ aux' = Append(aux, NewAux(d.by))
+  /\ aux' = Append(aux, [NewAux(d.by) EXCEPT !.lastc = "inst"])
   /\ nrest' = nrest + 1
   /\ UNCHANGED <<wire, disk>>
 
